@@ -173,6 +173,8 @@ static void runOne(const Workload* w, uint64_t seed, const Args& a, const char* 
   sim_opts_default(&o);
   o.seed = seed;
   o.fault_mask = w->fault_mask;
+  if (getenv("SIMRT_TSO_ALL")) // exploratory: store buffering in every workload (oracles may assume SC: not for claims)
+    o.fault_mask |= SF_TSO;
   o.explore_steps = a.explore_override ? a.explore_override : w->explore_steps;
   o.tail_steps = w->tail_steps;
   o.force_policy = a.policy;
